@@ -227,32 +227,30 @@ Definition locs (t : list event) : list N := flat_map ev_loc t.
 Lemma locs_app a b : locs (a ++ b) = locs a ++ locs b.
 Proof. apply flat_map_app. Qed.
 
-Lemma uses_cover : forall p, has_or p = false -> locs (emit_uses p) = ids p.
+Lemma uses_cover : forall p, locs (emit_uses p) = ids p.
 Proof.
-  apply (pat_rect' (fun p => has_or p = false -> locs (emit_uses p) = ids p)); cbn; auto; [|discriminate].
-  intros ps Hall. induction Hall as [|q qs Hq Hqs IH]; cbn; auto.
-  intros H. apply orb_false_iff in H. destruct H as [H1 H2]. unfold locs in *. rewrite flat_map_app, Hq, IH; auto.
-Qed.
-
-Lemma uses_cover_list ps : existsb has_or ps = false -> locs (flat_map emit_uses ps) = flat_map ids ps.
-Proof.
-  induction ps as [|q qs IH]; cbn; auto. intros H. apply orb_false_iff in H. destruct H as [H1 H2].
-  unfold locs in *. rewrite flat_map_app, IH by auto. f_equal. apply uses_cover; auto.
-Qed.
-
-(* outside the known class every identifier of a pattern produces exactly one event, in order *)
-Theorem pattern_cover_outside_known : forall p, Known_C15 p = false -> locs (emit p) = ids p.
-Proof.
-  apply (pat_rect' (fun p => Known_C15 p = false -> locs (emit p) = ids p)); cbn; auto.
+  apply (pat_rect' (fun p => locs (emit_uses p) = ids p)); cbn; auto.
   - intros ps Hall. induction Hall as [|q qs Hq Hqs IH]; cbn; auto.
-    intros H. apply orb_false_iff in H. destruct H as [H1 H2]. unfold locs in *. rewrite flat_map_app, Hq, IH; auto.
-  - intros p ps Hp _ H. apply orb_false_iff in H. destruct H as [H1 H2].
-    unfold locs in *. rewrite flat_map_app, Hp by auto. f_equal. apply uses_cover_list; auto.
+    unfold locs in *. rewrite flat_map_app, Hq, IH; auto.
+  - intros p ps Hp Hall. unfold locs in *. rewrite flat_map_app, Hp. f_equal.
+    induction Hall as [|q qs Hq Hqs IH]; cbn; auto. rewrite flat_map_app, Hq, IH; auto.
 Qed.
 
-(* X(A(x)) | Y(B(x) | C(x)) : the two identifiers of the nested or-pattern produce no event *)
-Definition known_witness : pat :=
-  POr (PNode [PNode [PId 1 10]]) [PNode [POr (PNode [PId 1 11]) [PNode [PId 1 12]]]].
+Lemma uses_cover_list ps : locs (flat_map emit_uses ps) = flat_map ids ps.
+Proof.
+  induction ps as [|q qs IH]; cbn; auto.
+  unfold locs in *. rewrite flat_map_app, IH. f_equal. apply uses_cover.
+Qed.
 
-Theorem pattern_cover_refuted : exists p, Known_C15 p = true /\ locs (emit p) <> ids p.
-Proof. exists known_witness. split; [reflexivity|]. vm_compute. discriminate. Qed.
+(* every identifier of a pattern produces exactly one event, in order *)
+Theorem pattern_cover : forall p, locs (emit p) = ids p.
+Proof.
+  apply (pat_rect' (fun p => locs (emit p) = ids p)); cbn; auto.
+  - intros ps Hall. induction Hall as [|q qs Hq Hqs IH]; cbn; auto.
+    unfold locs in *. rewrite flat_map_app, Hq, IH; auto.
+  - intros p ps Hp _. unfold locs in *. rewrite flat_map_app, Hp. f_equal. apply uses_cover_list.
+Qed.
+
+(* X(A(x)) | Y(B(x) | C(x)) : the identifiers of the nested or-pattern are uses *)
+Definition nested_or_witness : pat :=
+  POr (PNode [PNode [PId 1 10]]) [PNode [POr (PNode [PId 1 11]) [PNode [PId 1 12]]]].
